@@ -126,4 +126,16 @@ theorem indexByte_refines [DecidableEq α] (cfg : Cfg) {b : LB α} {q : Q α} (h
   simp only [LB.step, specStep, indexByte_spec hR c skip, Option.map_some]
   exact ⟨_, _, rfl, hR, rfl⟩
 
+theorem until_refines [DecidableEq α] (cfg : Cfg) {b : LB α} {q : Q α} (hR : R b q) (c : α)
+    (hC : Contract q (.until c) = true) :
+    ∃ b' r, b.until cfg c = some (b', r) ∧ R b' (specStep q (.until c)).1 ∧ Matches r (specStep q (.until c)).2 := by
+  unfold LB.until
+  simp only [indexByte_spec hR c 0, List.drop_zero, Nat.zero_add, specStep]
+  cases q.flushedBytes.idxOf? c with
+  | none => exact ⟨_, _, rfl, hR, rfl⟩
+  | some i =>
+    have hneg : ¬ ((i : Nat) : Int) < 0 := by omega
+    simp only [hneg, if_false]
+    exact next_refines cfg hR ((i : Int) + 1) hC
+
 end Netpoll.Buf
